@@ -17,6 +17,11 @@ fn main() {
         }
         return;
     }
+    if args.first().map(|s| s.as_str()) == Some("--gen-corpus") {
+        let dir = PathBuf::from(args.get(1).cloned().unwrap_or_else(|| "/verif/corpus".into()));
+        lc3v::props::corpus::generate(&dir);
+        return;
+    }
     if args.len() < 2 {
         usage();
     }
